@@ -87,10 +87,14 @@ CHECKS = {
  "C19": ("proof", "As C18 for take(n): the repaired code (fetch_update) never over-delivers under any schedule; the unrepaired code is refuted "
          "by a machine-checked schedule that is also replayed on the crate.",
          "Coq interleaving model + scheduler-controlled differential test"),
- "C20": ("translation_validation", "Each of the three builds (default; tracing without subscriber; tracing with a TRACE-level subscriber) is run on "
-         "the same scripts: the three traces and user-closure evaluation counts must be equal and equal to the single Coq model, so every "
-         "theorem of C01-C17 transfers to the tracing builds; plus a static audit that every cfg(tracing)-gated item is a span/Debug item.",
-         "three-build differential correspondence against one Coq model + static audit of cfg(tracing) sites"),
+ "C20": ("translation_validation", "Coq: a model of the call!/trace!/instrument! macros of src/utils/mod.rs (Tracing.v) - if the macro arguments "
+         "after the format string are pure, the three builds (feature off; on without subscriber; on with a TRACE subscriber) perform the "
+         "same effects and calls and evaluate every message expression exactly once (C20_tracing_inert, C20_message_evaluated_once); an "
+         "effect inside a trace! argument refutes it (C20_impure_trace_arg_refuted). Every run audits that premise on the current source "
+         "(every macro argument is an identifier/literal) and that every cfg(tracing)-gated item is a span/Debug item, and runs each of the "
+         "three builds on the same scripts: the three traces and user-closure evaluation counts must be equal and equal to the single Coq "
+         "operator model, so every theorem of C01-C17 transfers to the tracing builds.",
+         "Coq theorem about the macro expansions with its premise audited on the source + three-build differential correspondence against one Coq model"),
 }
 
 def main():
